@@ -580,3 +580,71 @@ pub fn run_scripted(case: &ScriptedCase) -> Result<(), String> {
     }
     Ok(())
 }
+
+
+// ---------------------------------------------------------------------------------------------
+// The read side of the same idea: a reader that LEARNS from earlier reads (an adaptive read size, a remembered frame
+// length) is only seen when the earlier reads were what it learns from: two maximum-size frames, a SMALL and a TINY
+// through a transport whose first four reads deliver a scripted number of bytes each (7^4 scripts), then whatever is asked.
+
+#[derive(Debug)]
+struct ScriptedReads { data: Vec<u8>, pos: usize, script: Vec<usize>, at: usize }
+impl ScriptedReads {
+    fn take(&mut self, want: usize) -> &[u8] {
+        let left = self.data.len() - self.pos;
+        let len = want.min(left);
+        let k = self.script.get(self.at).copied().unwrap_or(usize::MAX);
+        self.at += 1;
+        let n = if len == 0 { 0 } else if k == usize::MAX { len } else if k == usize::MAX - 1 { (len / 2).max(1) } else if k == usize::MAX - 2 { len.saturating_sub(1).max(1) } else { k.min(len).max(1) };
+        let s = &self.data[self.pos..self.pos + n];
+        self.pos += n;
+        s
+    }
+}
+impl io::Read for ScriptedReads { fn read(&mut self, b: &mut [u8]) -> io::Result<usize> { let s = self.take(b.len()); b[..s.len()].copy_from_slice(s); Ok(s.len()) } }
+impl io::Write for ScriptedReads { fn write(&mut self, b: &[u8]) -> io::Result<usize> { Ok(b.len()) } fn flush(&mut self) -> io::Result<()> { Ok(()) } }
+impl AsyncRead for ScriptedReads { fn poll_read(mut self: Pin<&mut Self>, _cx: &mut Context<'_>, b: &mut ReadBuf<'_>) -> Poll<io::Result<()>> { let want = b.remaining(); let s = self.take(want); b.put_slice(s); Poll::Ready(Ok(())) } }
+impl AsyncWrite for ScriptedReads {
+    fn poll_write(self: Pin<&mut Self>, _cx: &mut Context<'_>, b: &[u8]) -> Poll<io::Result<usize>> { Poll::Ready(Ok(b.len())) }
+    fn poll_flush(self: Pin<&mut Self>, _cx: &mut Context<'_>) -> Poll<io::Result<()>> { Poll::Ready(Ok(())) }
+    fn poll_shutdown(self: Pin<&mut Self>, _cx: &mut Context<'_>) -> Poll<io::Result<()>> { Poll::Ready(Ok(())) }
+}
+
+pub struct ScriptedReadCase { pub tokio: bool, pub compressed: bool, pub script: Vec<usize> }
+impl ScriptedReadCase {
+    pub fn label(&self) -> String {
+        let show = |k: &usize| if *k == usize::MAX { "all".to_string() } else if *k == usize::MAX - 1 { "half".into() } else if *k == usize::MAX - 2 { "all-but-one".into() } else { k.to_string() };
+        format!("scripted-reads#{}#{}#delivering {:?} then whatever is asked", if self.tokio { "tokio" } else { "blocking" }, if self.compressed { "compressed" } else { "uncompressed" }, self.script.iter().map(show).collect::<Vec<_>>())
+    }
+}
+pub fn scripted_read_cases() -> Vec<ScriptedReadCase> {
+    let choices = [usize::MAX, 1, 100, 256, 300, usize::MAX - 1, usize::MAX - 2];
+    let mut out = vec![];
+    for tokio in [false, true] { for compressed in [true, false] {
+        for a in choices { for b in choices { for c in choices { for d in choices { out.push(ScriptedReadCase { tokio, compressed, script: vec![a, b, c, d] }); } } } }
+    } }
+    out
+}
+pub fn run_scripted_reads(case: &ScriptedReadCase) -> Result<(), String> {
+    let codec = Codec::new(mode_of(case.compressed));
+    let c = cycle(case.compressed);
+    let packets = vec![c[0].clone(), c[4].clone(), c[1].clone(), c[3].clone(), c[0].clone()];
+    let frames: Vec<Vec<u8>> = packets.iter().map(|p| codec.encode(p).map(|b| b.to_vec()).map_err(|e| format!("MACHINERY encode {e:?}"))).collect::<Result<_, _>>()?;
+    let t = ScriptedReads { data: frames.concat(), pos: 0, script: case.script.clone(), at: 0 };
+    let check = |k: usize, r: Result<Packet, insim::Error>| -> Result<bool, String> {
+        if k == frames.len() { return match r { Err(insim::Error::Disconnected) => Ok(true), other => Err(format!("after the last frame the end of the stream was reported as {}", crate::e2::world::render(&other).chars().take(80).collect::<String>())) }; }
+        match r {
+            Ok(p) => { let again = codec.encode(&p).map_err(|e| format!("result {k} does not encode: {e:?}"))?; if again[..] != frames[k][..] { return Err(format!("result {k} is not frame {k} of the stream")); } Ok(false) },
+            Err(e) => Err(format!("result {k} is {}", crate::e2::world::render(&Err(e)).chars().take(80).collect::<String>())),
+        }
+    };
+    if case.tokio {
+        let rt = tokio::runtime::Builder::new_current_thread().enable_time().start_paused(true).build().map_err(|e| format!("MACHINERY {e}"))?;
+        let mut framed = insim::net::tokio_impl::Framed::new(Box::new(t), Codec::new(mode_of(case.compressed)));
+        rt.block_on(async { let mut k = 0; loop { let r = framed.read().await; if check(k, r)? { return Ok(()); } k += 1; } })
+    } else {
+        let mut framed = insim::net::blocking_impl::Framed::new(Box::new(t), Codec::new(mode_of(case.compressed)));
+        let mut k = 0;
+        loop { let r = framed.read(); if check(k, r)? { return Ok(()); } k += 1; }
+    }
+}
